@@ -103,8 +103,14 @@ Jobs_C02 ==
 DivB == PM({Z1, ZN(2), ZN(3), ZN(65535), ZN(65536), ZN(65537), P(31), P(32), P(46), P(47), P(47) -- Z1, P(62), Maxv}) \cup {Z0}
 DivA == LmFinite \cup PM(UNION {Near(P(k), 2) : k \in {31, 46, 47}})
 PairsDiv == {<<a, b>> : a \in DivA, b \in DivB \cup (IF Thorough THEN LmFinite ELSE {})}
+(* operands outside the value space (NaN sentinels, the lowest raw word): only "the call returns" is demanded of them *)
+RawOdd == {NaNv, NegNaN, IntMin, IntMin ++ ZN(65536)}
+PairsDivOdd == {<<a, b>> : a \in RawOdd, b \in PM({Z1, ZN(2), ZN(65536), Maxv}) \cup {Z0} \cup RawOdd}
+                  \cup {<<a, b>> : a \in PM({Z1, ZN(65536), P(47), Maxv}) \cup {Z0}, b \in RawOdd}
 Jobs_C03 ==
    S2Q({Call("div", <<"fx", "fx">>, p) : p \in PairsDiv}) \o S2Q({CallAsg("div", <<"fx", "fx">>, p) : p \in PairsDiv})
+   \o S2Q({Call("div", <<"fx", "fx">>, p) : p \in PairsDivOdd})
+   \o FlatSeq([i \in 1..NT |-> S2Q({Call("div", <<"fx", IntTagsG[i]>>, <<a, n>>) : a \in RawOdd, n \in IntLm(IntTagsG[i])})])
    \o FlatSeq([i \in 1..NT |->
          S2Q({Call("div", <<"fx", IntTagsG[i]>>, <<a, n>>) : a \in FxForScalar, n \in IntLm(IntTagsG[i])})
          \o <<Rand("div", <<"fx", IntTagsG[i]>>, NR(1500, 40000), Seed + 30 + i)>>])
